@@ -222,13 +222,17 @@ def apply_history(tw, hist):
                 ctx.__enter__()
                 opened.append(ctx)
                 frame = dict(FRAMES[op[1]])
-                created.append((ctx, frame))
+                created.append((ctx, frame, "ctx"))
                 model.append(("ctx", frame))
             elif kind == "app":
                 ctx = mc.application(op[1])
                 ctx.__enter__()
                 opened.append(ctx)
-                model.append(("app", {"app_id": op[1]}))
+                # the application context object can be entered again too
+                # (every exit stops the application)
+                frame = {"app_id": op[1]}
+                created.append((ctx, frame, "app"))
+                model.append(("app", frame))
             elif kind == "update":
                 mc.update_current_context(**UPDATES[op[1]])
                 model[-1][1].update(UPDATES[op[1]])
@@ -237,10 +241,10 @@ def apply_history(tw, hist):
                 # earlier push of this history (it may still be open)
                 if op[1] >= len(created):
                     continue
-                ctx, frame = created[op[1]]
+                ctx, frame, fkind = created[op[1]]
                 ctx.__enter__()
                 opened.append(ctx)
-                model.append(("ctx", frame))
+                model.append((fkind, frame))
         except Exception as e:
             problems.append(("history_exception", "%r raised %s: %s"
                              % (op, type(e).__name__, e)))
@@ -448,14 +452,14 @@ def shards(tier):
 
 
 def successors(hist, depth_left):
-    n_open = sum(1 for o in hist if o[0] in ("push", "app")) - \
+    n_open = sum(1 for o in hist if o[0] in ("push", "app", "repush")) - \
         sum(1 for o in hist if o[0] in ("pop", "pop_exc"))
     ops = [("push", i) for i in range(len(FRAMES))] + \
         [("app", 1), ("app", 2)] + \
         [("update", i) for i in range(len(UPDATES))]
     if n_open > 0:
         ops += [("pop",), ("pop_exc",)]
-    n_created = sum(1 for o in hist if o[0] == "push")
+    n_created = sum(1 for o in hist if o[0] in ("push", "app"))
     ops += [("repush", j) for j in range(min(n_created, 2))]
     return ops
 
@@ -490,7 +494,15 @@ def part_bfs(params, tier, acc):
                 ident = []
                 for c in opened:
                     ident.append([id(o) for o in opened].index(id(c)))
-                key = repr(model) + repr(ident)
+                # ... and how often each context object created so far has
+                # been entered again / left (deliberately finer than the
+                # stack-of-dicts model needs: state kept inside a context
+                # object shows up only when it is used a second time)
+                uses = (sum(1 for o in hist if o[0] == "repush"),
+                        min(2, sum(1 for o in hist
+                                   if o[0] in ("pop", "pop_exc"))))
+                key = repr(model) + repr(ident) + repr(
+                    uses if any(o[0] == "repush" for o in hist) else ())
                 new = key not in seen
                 if new and len(seen) % 97 == 5:
                     acc.sample(dict(history=[list(o) for o in hist],
